@@ -18,6 +18,8 @@ def hFollow (j : Json) : Except String Json := do
   let nomid := paths.filter (fun p => !middleWildcard p)
   let mut out := [("m", pj m), ("spec_m", toJson sm.ok), ("spec_m_why", toJson sm.why),
                   ("spec_sep", toJson (specFollow l paths sep).ok),
+                  ("spec_keyed", toJson (specFollow l paths (followLinksKeyed Fix.f4 l paths (4 * fuel))).ok),
+                  ("spec_keyed_nomid", toJson (specFollow l nomid (followLinksKeyed Fix.f4 l nomid (4 * fuel))).ok),
                   ("spec_sep_nomid", toJson (specFollow l nomid (followLinksSeparately Fix.f4 l nomid fuel)).ok),
                   ("spec_nomid", toJson (specFollow l nomid (followLinks Fix.f4 l nomid fuel)).ok),
                   ("midwild", toJson (paths.any middleWildcard))]
